@@ -49,6 +49,10 @@ _LOGGER = logging.getLogger(__name__)
 
 EventCallbackType = Callable[["UpnpService", Sequence["UpnpStateVariable"]], None]
 
+# A literal carriage return is turned into a line feed by XML end-of-line
+# normalization at the receiver; send it as a character reference instead.
+_ESCAPE_ENTITIES = {"\r": "&#13;"}
+
 
 class UpnpRequester(ABC):
     """
@@ -708,10 +712,10 @@ class UpnpAction:
 
     def _format_request_args(self, **kwargs: Any) -> str:
         self.validate_arguments(**kwargs)
-        arg_strs = [
-            f"<{arg.name}>{escape(arg.coerce_upnp(kwargs[arg.name]))}</{arg.name}>"
-            for arg in self.in_arguments()
-        ]
+        arg_strs = []
+        for arg in self.in_arguments():
+            upnp_value = escape(arg.coerce_upnp(kwargs[arg.name]), _ESCAPE_ENTITIES)
+            arg_strs.append(f"<{arg.name}>{upnp_value}</{arg.name}>")
         return "\n".join(arg_strs)
 
     def parse_response(
